@@ -61,6 +61,34 @@ MkRegexCase(id, rs) ==
    sigma |-> SetToSeq(Sigma(rs)), lo |-> 1, hi |-> IF Tier = "quick" THEN 3 ELSE 4]
 
 All == SetToSeq(Regexes)
-ASSUME ndJsonSerialize(OutFile, [i \in 1..Len(All) |-> MkRegexCase(i, All[i])])
+
+(* ten and more groups: two-digit group numbers and back-references, on      *)
+(* explicit longer texts                                                     *)
+GN == <<"_1", "_2", "_3", "_4", "_5", "_6", "_7", "_8", "_9", "_10", "_11", "_12">>
+Groups(n) == [j \in 1..n |-> RGrp("cap", GN[j], <<RDot>>)]
+ManyGroups == << Groups(10) \o <<RRef("_10")>>, Groups(10) \o <<RRef("_1"), RSet(FALSE, <<SC(48)>>)>>,     \* \1[0]: group 1, then the character 0 (written \10 it would be group 10) Groups(11) \o <<RRef("_11"), RRef("_1")>>,
+                 Groups(12) \o <<RRef("_12"), RRef("_10")>>, Groups(9) \o <<RRef("_9")>>,
+                 <<RGrp("non", "", <<RC(ca)>>)>> \o Groups(10) \o <<RRef("_10"), RRef("_2")>> >>
+ab(n) == [j \in 1..n |-> IF j % 2 = 1 THEN ca ELSE cb]
+ManyTexts == << ab(10) \o <<cb>>, ab(10) \o <<ca, 48>>, ab(10) \o <<cb, ca>>, ab(11) \o <<ca, ca>>, ab(12) \o <<cb, cb>>, ab(9) \o <<ca>>,
+                ab(9) \o <<cb>>, <<ca>> \o ab(10) \o <<cb, cb>>, ab(12) \o <<cb, cb, ca, 48>>, ab(10) \o <<cb, 48>> >>
+MkManyCase(id, rs) ==
+  [id |-> id, regex |-> rs,
+   cmds |-> <<[kind |-> "find", amt |-> [k |-> "all"], body |-> ToPattern(rs)]>>,
+   srcbytes |-> FindAllAt \o RSrcSeq(rs) \o <<47>>, resrc |-> RSrcSeq(rs), texts |-> ManyTexts]
+(* one regular expression written as several literals in a row: the groups  *)
+(* are numbered through the whole command, whatever the literals' texts      *)
+SplitPairs == << << <<RGrp("cap", "_1", <<RC(ca)>>)>>, <<RGrp("cap", "_2", <<RC(ca)>>)>> >>,
+                 << <<RGrp("cap", "_1", <<RDot>>)>>, <<RGrp("cap", "_2", <<RDot>>), RRef("_1")>> >>,
+                 << <<RGrp("cap", "_1", <<RC(ca)>>), RGrp("cap", "_2", <<RC(cb)>>)>>, <<RGrp("cap", "_3", <<RC(ca)>>), RRef("_2")>> >>,
+                 << <<RC(ca), RGrp("cap", "_1", <<RDot>>)>>, <<RC(ca), RGrp("cap", "_2", <<RDot>>)>> >>,
+                 << <<RGrp("non", "", <<RC(ca)>>)>>, <<RGrp("cap", "_1", <<RC(cb)>>), RRef("_1")>> >> >>
+MkSplitCase(id, pr) ==
+  [id |-> id, regex |-> pr[1] \o pr[2],
+   cmds |-> <<[kind |-> "find", amt |-> [k |-> "all"], body |-> ToPattern(pr[1] \o pr[2])]>>,
+   srcbytes |-> FindAllAt \o RSrcSeq(pr[1]) \o <<47, 32, 64, 47>> \o RSrcSeq(pr[2]) \o <<47>>, resrc |-> RSrcSeq(pr[1] \o pr[2]),
+   split |-> TRUE, sigma |-> SetToSeq({ca, cb, c1}), lo |-> 1, hi |-> IF Tier = "quick" THEN 4 ELSE 5]
+ASSUME ndJsonSerialize(OutFile, [i \in 1..Len(All) |-> MkRegexCase(i, All[i])] \o [i \in 1..Len(ManyGroups) |-> MkManyCase(Len(All) + i, ManyGroups[i])]
+                                  \o [i \in 1..Len(SplitPairs) |-> MkSplitCase(Len(All) + Len(ManyGroups) + i, SplitPairs[i])])
 ASSUME PrintT(<<"cases", Len(All)>>)
 =============================================================================
